@@ -108,9 +108,10 @@ type nativeOutcome struct {
 }
 
 type nativeRunner struct {
-	scratch string
-	bins    map[string]string
-	race    bool
+	scratch  string
+	bins     map[string]string
+	race     bool
+	raceBins map[string]string
 }
 
 func goEnv() []string {
@@ -148,6 +149,9 @@ func (n *nativeRunner) bin(pkg string) (string, error) {
 		return b, nil
 	}
 	out := filepath.Join(n.scratch, "t_"+strings.ReplaceAll(pkg, "/", "_")+".test")
+	if n.race {
+		out = filepath.Join(n.scratch, "t_"+strings.ReplaceAll(pkg, "/", "_")+".race.test")
+	}
 	args := []string{"test", "-c", "-vet=off", "-tags", "verif", "-overlay", n.overlayFile(), "-o", out}
 	if n.race {
 		args = append(args, "-race")
@@ -256,6 +260,34 @@ func (n *nativeRunner) strace(pkg string, c nativeCase) ([]string, error) {
 		calls = append(calls, l)
 	}
 	return calls, nil
+}
+
+// raceDetected runs one native case with real goroutines in a binary built
+// with -race and reports whether the Go race detector fired.
+func (n *nativeRunner) raceDetected(pkg string, c nativeCase) (bool, error) {
+	rn := &nativeRunner{scratch: n.scratch, bins: n.raceBins, race: true}
+	if rn.bins == nil {
+		rn.bins = map[string]string{}
+		n.raceBins = rn.bins
+	}
+	bin, err := rn.bin(pkg + "")
+	if err != nil {
+		return false, err
+	}
+	cf := filepath.Join(n.scratch, "race_cases.jsonl")
+	of := filepath.Join(n.scratch, "race_out.jsonl")
+	b, _ := json.Marshal(c)
+	os.WriteFile(cf, append(b, '\n'), 0644)
+	for try := 0; try < 5; try++ {
+		cmd := exec.Command(bin, "-test.run", "^TestZZReplay$", "-test.count", "4")
+		cmd.Dir = filepath.Join(repoDir, pkg)
+		cmd.Env = append(goEnv(), "VERIF_CASES="+cf, "VERIF_OUT="+of, "GORACE=halt_on_error=0")
+		out, _ := cmd.CombinedOutput()
+		if strings.Contains(string(out), "DATA RACE") || strings.Contains(string(out), "concurrent map") {
+			return true, nil
+		}
+	}
+	return false, nil
 }
 
 // confinedDiff lists system calls of the case that the baseline run did not
@@ -542,6 +574,22 @@ func cmdCheck(args []string) {
 				if extra := confinedDiff(calls, baseCalls); len(extra) > 0 {
 					couts[k].Fails = append(couts[k].Fails, "C10.forbidden")
 					couts[k].Obs = append(couts[k].Obs, "strace: "+strings.Join(extra, " ; "))
+				}
+			}
+			// C11: a predicted race is confirmed by real goroutines under
+			// the Go race detector.
+			for k, c := range cands {
+				if c.Site != "C11.race" || k >= len(couts) {
+					continue
+				}
+				hit, rerr := nat.raceDetected(pkg, nativeCase{Harness: h.Name, Model: c.Model})
+				if rerr != nil {
+					cr.inconclusive = append(cr.inconclusive, fmt.Sprintf("%s: predicted race cannot be replayed under the race detector: %v", h.Name, rerr))
+					continue
+				}
+				if hit {
+					couts[k].Fails = append(couts[k].Fails, "C11.race")
+					couts[k].Obs = append(couts[k].Obs, "go race detector: DATA RACE; predicted: "+c.PanicMsg)
 				}
 			}
 			seenKnown := map[string]bool{}
